@@ -7,17 +7,24 @@ import Glom.Lemmas.C08
 -/
 namespace Glom.Interp
 
-/-- `rec s t sc >>= fun r => k r.1` through the value projection of the evaluator -/
-theorem bind_fst {σ : Type} {β : Type} (m : M (V × σ)) (k : V → M β) :
-    (m >>= fun r => k r.1) = ((m >>= fun r => pure r.1) >>= k) := by
-  simp
+section
+open ScopeAlg
+variable {σ : Type} [ScopeAlg σ]
 
-theorem logAppend_assoc (st : St) (a b : List Ev) :
-    ({ ({ st with log := st.log ++ a } : St) with log := ({ st with log := st.log ++ a } : St).log ++ b } : St) =
-      { st with log := st.log ++ (a ++ b) } := by
-  simp [List.append_assoc]
+/-- on sub-spec `s` the evaluator computes the effectful function `g`, at every scope with mode `m`
+    and argument flag `a` -/
+def EvalOn (rec : Rec σ) (m : Mode) (a : Bool) (s : Spec) (g : V → M V) : Prop :=
+  ∀ t (sc : σ), mode sc = m → argMode sc = a → (rec s t sc >>= fun r => pure r.1) = g t
 
-theorem logAppend_nil (st : St) : ({ st with log := st.log ++ [] } : St) = st := by
-  simp
+theorem evalOn_apply {rec : Rec σ} {m : Mode} {a : Bool} {s : Spec} {g : V → M V} (h : EvalOn rec m a s g)
+    (t : V) (sc : σ) (hm : mode sc = m) (ha : argMode sc = a) (st : St) :
+    g t st = (match rec s t sc st with
+      | (st', .ok r) => (st', .ok r.1)
+      | (st', .error e) => (st', .error e)) := by
+  rw [← h t sc hm ha, M.bind_apply]
+  rcases rec s t sc st with ⟨st', r⟩
+  cases r <;> rfl
+
+end
 
 end Glom.Interp
